@@ -178,6 +178,9 @@ func (x *Exec) safetyOblige(fr *Frame, st *State, kind, detail string, goal *Ter
 	if fr.contract != nil && fr.contract.NoSafety {
 		return
 	}
+	if x.rootFrame != nil && x.rootFrame.contract != nil && x.rootFrame.contract.NoSafety {
+		return // also for code inlined into a function whose safety is not claimed
+	}
 	x.oblige(fr, st, kind, detail, "", goal, pos, detail)
 }
 
